@@ -370,6 +370,95 @@ pub broadcast proof fn lemma_qsem_link(q: u8, op: u8, h: Tree, f: Tree, g: Tree,
 pub broadcast group quant2_lemmas { lemma_qsem2_upd, lemma_qsem2_vs_mk, lemma_qsem2_vs_leaf, lemma_qsem2_mk_f, lemma_qsem2_mk_g, lemma_qsem2_mk_fg,
     lemma_popped2, lemma_qsem2_xor_above, lemma_qsem_xor_above, lemma_qsem2_comm, lemma_qsem_link }
 
+// ---------- canonicity (C01): equal functions <=> identical reduced ordered diagrams <=> equal handles ----------
+//@lemma name=distinguish props=C01
+pub proof fn distinguish(a: Tree, b: Tree) -> (env: Env)
+    requires wf(a), wf(b), a != b,
+    ensures sem(a, env) != sem(b, env),
+    decreases a, b,
+{
+    match (a, b) {
+        (Tree::Leaf(x), Tree::Leaf(y)) => { |i: int| true }
+        (Tree::Inner(l, a1, a0), _) if top(b) > l => {
+            if *a1 != b {
+                let e = distinguish(*a1, b);
+                lemma_sem_upd(*a1, e, l as int, true); lemma_sem_upd(b, e, l as int, true);
+                upd(e, l as int, true)
+            } else {
+                let e = distinguish(*a0, b);
+                lemma_sem_upd(*a0, e, l as int, false); lemma_sem_upd(b, e, l as int, false);
+                upd(e, l as int, false)
+            }
+        }
+        (Tree::Inner(l, a1, a0), Tree::Inner(k, b1, b0)) if k == l => {
+            if *a1 != *b1 {
+                let e = distinguish(*a1, *b1);
+                lemma_sem_upd(*a1, e, l as int, true); lemma_sem_upd(*b1, e, l as int, true);
+                upd(e, l as int, true)
+            } else {
+                let e = distinguish(*a0, *b0);
+                lemma_sem_upd(*a0, e, l as int, false); lemma_sem_upd(*b0, e, l as int, false);
+                upd(e, l as int, false)
+            }
+        }
+        (_, Tree::Inner(k, b1, b0)) => {
+            if a != *b1 {
+                let e = distinguish(a, *b1);
+                lemma_sem_upd(a, e, k as int, true); lemma_sem_upd(*b1, e, k as int, true);
+                upd(e, k as int, true)
+            } else {
+                let e = distinguish(a, *b0);
+                lemma_sem_upd(a, e, k as int, false); lemma_sem_upd(*b0, e, k as int, false);
+                upd(e, k as int, false)
+            }
+        }
+        _ => { assert(false); |i: int| true }
+    }
+}
+/// Bryant: semantically equal well-formed (ordered, reduced) diagrams are identical
+//@lemma name=canonicity props=C01,C03
+pub proof fn canonicity(a: Tree, b: Tree)
+    requires wf(a), wf(b), forall|env: Env| sem(a, env) == sem(b, env),
+    ensures a == b,
+{
+    if a != b { let e = distinguish(a, b); assert(sem(a, e) == sem(b, e)); }
+}
+/// handle level: under the hash-consing contract, two handles of well-formed diagrams compare equal iff they denote the same
+/// function.  Every operation of this bundle ensures `ok(result)`, so by induction over any history every live handle is
+/// well-formed and this lemma applies to any two of them.
+//@lemma name=handles_equal_iff_same_function props=C01
+pub proof fn handles_equal_iff_same_function<E: Edge>(x: E, y: E)
+    requires edge_ok::<E>(), wf(x.view()), wf(y.view()),
+    ensures x.eq_spec(&y) <==> (forall|env: Env| sem(x.view(), env) == sem(y.view(), env)),
+{
+    if forall|env: Env| sem(x.view(), env) == sem(y.view(), env) { canonicity(x.view(), y.view()); }
+}
+/// the result of an operation is determined by its specification alone (independent of cache content, history, order of evaluation):
+/// any two well-formed results satisfying the same semantic postcondition are the same diagram
+//@lemma name=result_determined_by_spec props=C01,C06
+pub proof fn result_determined_by_spec(r1: Tree, r2: Tree, spec: spec_fn(Env) -> bool)
+    requires wf(r1), wf(r2), forall|env: Env| sem(r1, env) == spec(env), forall|env: Env| sem(r2, env) == spec(env),
+    ensures r1 == r2,
+{
+    canonicity(r1, r2);
+}
+/// adding variables (new levels are appended below all existing ones) does not change the function of an existing diagram:
+/// its value does not depend on levels >= n when all its nodes are on levels < n
+//@lemma name=add_vars_preserves_function props=C01,C16
+pub proof fn add_vars_preserves_function(t: Tree, n: int, e1: Env, e2: Env)
+    requires below(t, n), forall|i: int| i < n ==> #[trigger] e1(i) == e2(i),
+    ensures sem(t, e1) == sem(t, e2), forall|m: int| m >= n ==> #[trigger] below(t, m),
+    decreases t,
+{
+    match t {
+        Tree::Leaf(_) => {}
+        Tree::Inner(l, a, b) => {
+            add_vars_preserves_function(*a, n, e1, e2); add_vars_preserves_function(*b, n, e1, e2);
+            assert forall|m: int| m >= n implies #[trigger] below(t, m) by { assert(below(*a, m) && below(*b, m)); }
+        }
+    }
+}
+
 // ---------- substitution (C04) ----------
 pub open spec fn eviews<E: Edge>(s: Seq<E>) -> Seq<Tree> { s.map_values(|e: E| e.view()) }
 /// environment in which every level `i < s.len()` takes the value of its replacement function (simultaneous substitution)
